@@ -577,6 +577,7 @@ static int _bisect_forward_serialno(OggVorbis_File *vf,
     while(testserial != serialno){
       testserial = serialno;
       searched = _get_prev_page_serial(vf,searched,currentno_list,currentnos,&testserial,&searchgran);
+      if(searched<0)return(searched);
     }
 
     ret=_seek_helper(vf,next);
